@@ -25,6 +25,7 @@ import (
 	"github.com/bitcoin-sv/block-headers-service/repository"
 	"github.com/bitcoin-sv/block-headers-service/service"
 	"github.com/bitcoin-sv/block-headers-service/transports/http/endpoints"
+	peerpkg "github.com/bitcoin-sv/block-headers-service/transports/p2p/peer"
 	httpserver "github.com/bitcoin-sv/block-headers-service/transports/http/server"
 	"github.com/bitcoin-sv/block-headers-service/verifharness/ev"
 	"github.com/bitcoin-sv/block-headers-service/verifharness/refmodel"
@@ -46,6 +47,7 @@ type Options struct {
 	AfterSvc    func(*service.Services, *config.AppConfig)        // e.g. add notifier channels
 	EngineOpts  []func(*gin.Engine)                               // extra engine configuration (websocket)
 	NoHTTP      bool
+	Peers       map[*peerpkg.Peer]*peerpkg.SyncState // shared with the legacy p2p server (nil if none)
 }
 
 // Stack is one running instance of the real stack.
@@ -126,7 +128,7 @@ func (s *Stack) open() error {
 	}
 	s.Svc = service.NewServices(service.Dept{
 		Repositories: s.Repos,
-		Peers:        nil,
+		Peers:        s.Opt.Peers,
 		AdminToken:   cfg.HTTP.AuthToken,
 		Logger:       &s.Log,
 		Config:       cfg,
